@@ -716,6 +716,8 @@ def r18i(ctx):
 def run(ctx):
     r18k(ctx)
     r18l(ctx)
+    from ..pairing import e12
+    e12(ctx)          # ancestor sets of recursive builders are unwound on every exit
     r18m(ctx)
     r18a(ctx)
     r18b(ctx)
